@@ -24,6 +24,10 @@
      * dropping the ScanScheduler (possible only when no FileScheduler handle
        is left, hence no later Submit) closes the queue: every pending iop is
        cancelled (its request fails once its in-flight iops finished).
+     * a zero-length range is an iop of 0 bytes: it goes through the heap, an
+       iops slot and priorities_in_flight like any other (and its request
+       must complete and release its priority when consumed), but IoTask::run
+       answers it without calling the store;
    The process-wide IOPS quota (128 by default) is not modelled: the bounds
    here never reach it.                                                      *)
 EXTENDS IoSchedOps, TLC, Json
